@@ -20,8 +20,25 @@ import (
 
 // argvString draws a string a shell can pass (no NUL) and names its class.
 func argvString(t *rapid.T, label string) (string, string) {
-	cls := rapid.SampledFrom([]string{"plain", "plain", "plain", "yaml", "yaml", "multiline", "multiline", "control", "invalid-utf8", "empty", "unicode"}).Draw(t, label+"-class")
+	cls := rapid.SampledFrom([]string{"plain", "plain", "plain", "yaml", "yaml", "multiline", "multiline", "composed-multiline", "composed-multiline", "control", "invalid-utf8", "empty", "unicode"}).Draw(t, label+"-class")
 	switch cls {
+	case "composed-multiline":
+		// 2-4 lines put together from: a first character that means something to a YAML writer or reader
+		// (indicators, every kind of blank and line break Unicode has), words, a line break of any
+		// kind, indentation, an ending with or without breaks
+		starts := []string{"", "", " ", "\t", "\n", "\r", "\u0085", "\u2028", "\u2029", "\u00a0", "\ufeff", "\u200b", "\u3000", "-", "- ", "#", "|", ">", ":", "?", "? ", "%", "@", "`", "\"", "'", "!", "&", "*", "{", "[", "]", "}", ",", "---", "..."}
+		breaks := []string{"\n", "\n", "\n", "\r\n", "\n\n", "\n ", "\n\t", "\n  ", "\u2028\n", "\n\u2029", "\u0085\n", "\n\u2028"}
+		b := rapid.SampledFrom(starts).Draw(t, label+"-start")
+		for i, n := 0, rapid.IntRange(2, 4).Draw(t, label+"-lines"); i < n; i++ {
+			if i > 0 {
+				b += rapid.SampledFrom(breaks).Draw(t, label+"-break")
+				if rapid.IntRange(0, 3).Draw(t, label+"-line-start") == 0 {
+					b += rapid.SampledFrom(starts).Draw(t, label+"-start2")
+				}
+			}
+			b += gen.Text(1, 3).Draw(t, label+"-line")
+		}
+		return b + rapid.SampledFrom([]string{"", "", "\n", "\n\n", " ", "\u2028"}).Draw(t, label+"-end"), cls
 	case "plain":
 		return gen.Text(1, 5).Draw(t, label), cls
 	case "yaml":
